@@ -1,3 +1,42 @@
-From DI Require Import PyStr Copyright.
-Theorem C07_placeholder : True. Proof. exact I. Qed.
-Print Assumptions C07_placeholder.
+(* C07 - Lenient parsing is total: no input text makes it raise.
+   Every Python operation of the modelled code that can raise is a [Raise] branch of
+   the model ([result] type); functions whose model has a plain type (to_dict,
+   dumps, is_valid, get_paragraph(s)_data) contain no such operation.  Determinism
+   is the functionality of the model. *)
+From Coq Require Import String.
+From Coq Require Import NArith List Bool.
+From DI Require Import Result PyStr Deb822 Debcon Copyright Deb822Facts CopyrightFacts.
+Import ListNotations.
+
+(* the line-tracking parser: the "Invalid field line" exception is unreachable *)
+Theorem C07_deb822_total : forall t, exists gs, groups t = Ok gs.
+Proof. exact groups_total. Qed.
+Print Assumptions C07_deb822_total.
+
+(* from_fields: the assertion "name not in mapping" is unreachable for any list of fields
+   (duplicate, numerically suffixed and reserved names included) *)
+Theorem C07_from_fields_total : forall t fs, exists p, from_fields t fs = Ok p.
+Proof. exact from_fields_total. Qed.
+Print Assumptions C07_from_fields_total.
+
+(* building a copyright object from any text succeeds, and then its dictionary form (with and
+   without line numbers), rendering and validity checks are values *)
+Theorem C07_copyright_total : forall t, exists ps,
+  from_text t = Ok ps /\
+  exists (d : list (pydict str)) (s : str) (b b' : bool),
+    d = map para_to_dict ps /\ s = doc_dumps ps /\ b = doc_is_valid false ps /\ b' = doc_is_valid true ps.
+Proof.
+  intros t. destruct (from_text_total t) as (ps & H). exists ps. split; [exact H|].
+  repeat eexists.
+Qed.
+Print Assumptions C07_copyright_total.
+
+(* the header-style parser *)
+Theorem C07_debcon_total : forall t, exists r, get_paragraphs_data t = r /\ exists d, get_paragraph_data t = d.
+Proof. intros t. eexists. split; [reflexivity|eexists; reflexivity]. Qed.
+Print Assumptions C07_debcon_total.
+
+Example C07_clashing_names :
+  exists ps, from_text (lit "License-1: a" ++ [10] ++ lit "License: b" ++ [10] ++ lit "License: c" ++ [10] ++
+                        lit "Extra-Data: x" ++ [10]) = Ok ps /\ length ps = 1%nat.
+Proof. eexists. split; vm_compute; reflexivity. Qed.
